@@ -28,7 +28,7 @@ RULE = (
     "constructor arguments?, hash agreement, match agreement)."
 )
 ASSUMPTIONS = [
-    "Excl: non-finalized (mutable) boolean nodes - they are unhashable builder states",
+    "non-finalized (mutable) boolean nodes are only covered through the incremental-build histories (partial node inspected, then completed and finalized, compared with the equal node built in one go); a partial node itself is an unhashable builder state and is not compared",
     "Excl: DepSet has no match(); equal DepSets are compared by hash and, for REQUIRED_USE DepSets, by the set of solutions of find_constraint_satisfaction (order of solutions is C10's subject)",
     "Excl: for cross-family equal pairs match outcomes are compared only when both families share one universe (package-level families), and only on elements both accept without raising; for families with different argument types (e.g. ContainmentMatch vs _UseDepDefaultContainment) only the hashes are compared",
     "match outcomes are compared by truthiness; an exception type raised by match counts as an outcome (same-family)",
@@ -205,6 +205,9 @@ def tasks(tier):
         step = max(1, 9000 // n)
         for lo in range(0, n, step):
             out.append(("same", fam, lo, min(n, lo + step)))
+    nb = len([x for x in specs("bool") if x[1] != "Keyed"])
+    for lo in range(0, nb, 24):
+        out.append(("incr", "bool", lo, min(nb, lo + 24)))
     if tier == "thorough":
         n = len(all_specs())
         step = 8
@@ -518,12 +521,72 @@ def classify(sa, sb, info):
     return k
 
 
+def check_incremental(spec, split):
+    """History variant: a boolean node built incrementally (finalize=False, inspected -- hashed, used as a dict and
+    query-cache key where the implementation allows it -- while still partial, then completed with add_restriction()
+    and finalize()) must be interchangeable with the equal node built in one go. -> list of (what, msg)."""
+    from pkgcore.ebuild import restricts
+    from pkgcore.repository.misc import caching_repo
+    from pkgcore.restrictions import boolean
+    from pkgcore.test.misc import FakeRepo
+
+    nc = {"disable_inst_caching": True}
+    _, kind, neg, nt, ch = spec
+    leaves = [restricts.CategoryDep("a", **nc), restricts.PackageDep("b", **nc), restricts.SlotDep("0", **nc)]
+    cls = {"A": boolean.AndRestriction, "O": boolean.OrRestriction, "J": boolean.JustOneRestriction, "M": boolean.AtMostOneOfRestriction}[kind]
+    node = cls(*[leaves[i] for i in ch[:split]], negate=bool(neg), node_type=nt, finalize=False)
+    pkgs = [p for p in universe("pkg") if not isinstance(p, Bare)]
+    cache = caching_repo(FakeRepo(pkgs=pkgs), iter)
+    early = []
+    for probe in (lambda: hash(node), lambda: {node: 1}, lambda: list(cache.match(node))):
+        try:
+            probe()
+            early.append("ok")
+        except TypeError:
+            early.append("refused")
+    rest = [leaves[i] for i in ch[split:]]
+    if rest:
+        node.add_restriction(*rest)
+    node.finalize()
+    fresh = make(spec)
+    out = []
+    if not (node == fresh and fresh == node):
+        return [("incr-eq", f"{show(spec)} built incrementally (split {split}) != the same node built in one go")]
+    if hash(node) != hash(fresh):
+        out.append(("incr-hash", f"{show(spec)} built incrementally (first {split} children, inspected early: {early}) == the node built in one go but their hashes differ"))
+    if len({node: 1, fresh: 2}) != 1:
+        out.append(("incr-hash", f"{show(spec)} built incrementally and the equal fresh node occupy two dict slots"))
+    va = [outcome(node, x) for x in universe("pkg")]
+    vb = [outcome(fresh, x) for x in universe("pkg")]
+    if va != vb:
+        out.append(("incr-match", f"{show(spec)} built incrementally matches differently from the equal fresh node"))
+    got = [id(p) for p in cache.match(node)]
+    want = [id(p) for p in pkgs if outcome(fresh, p) is True]
+    if got != want:
+        out.append(("incr-cache", f"query cache consulted while {show(spec)} was partial (split {split}, early: {early}) answers the finished node with {len(got)} packages, its own answer has {len(want)}"))
+    got2 = [id(p) for p in cache.match(fresh)]
+    if got2 != want:
+        out.append(("incr-cache", f"query cache primed through the incrementally built {show(spec)} answers the equal fresh node with {len(got2)} packages instead of {len(want)}"))
+    return out
+
+
 def work(task):
     mode, fam, lo, hi = task
     evals = 0
     classes = {}
     buckets = {}
     samples = []
+    if mode == "incr":
+        viol = []
+        for spec in [x for x in specs("bool") if x[1] != "Keyed"][lo:hi]:
+            for split in range(0, len(spec[4]) + 1):
+                evals += 1
+                res = check_incremental(spec, split)
+                k = f"incr:{spec[1]}:{'neg' if spec[2] else 'pos'}:{'ok' if not res else res[0][0]}"
+                classes[k] = classes.get(k, 0) + 1
+                for what, msg in res:
+                    viol.append({"a": spec, "b": ["split", split], "what": what, "msg": msg})
+        return {"evals": evals, "classes": classes, "viol": viol, "samples": [], "counters": {"incremental_histories": evals}}
     if mode == "same":
         left = specs(fam)[lo:hi]
         right = specs(fam)
@@ -565,6 +628,8 @@ def _size(c):
 
 
 def replay(case):
+    if case["what"].startswith("incr-"):
+        return [msg for what, msg in check_incremental(case["a"], case["b"][1]) if what == case["what"]]
     return [msg for what, msg in check_pair(case["a"], case["b"]) if what == case["what"]]
 
 
